@@ -27,10 +27,11 @@ class Data:
         return concept._extent.shortlex()
 
     @classmethod
-    def _fromlist(cls, context, lattice, unordered) -> 'Lattice':
+    def _fromlist(cls, context, lattice, unordered, inst=None) -> 'Lattice':
         make_objects = context._Objects.fromint
         make_properties = context._Properties.fromint
-        inst = object.__new__(cls)
+        if inst is None:
+            inst = object.__new__(cls)
         concepts = [Concept(inst,
                             make_objects(sum(1 << e for e in ex)),
                             make_properties(sum(1 << i for i in in_)),
@@ -140,13 +141,13 @@ class Data:
             c.properties = tuple(c.properties)
 
     def __getstate__(self):
-        """Pickle lattice as ``(context, concepts)`` tuple."""
-        return self._context, self._concepts
+        """Pickle lattice as ``(context, lattice)`` tuple with index-based concept list."""
+        return self._context, self._tolist()
 
     def __setstate__(self, state):
-        """Unpickle lattice from ``(context, concepts)`` tuple."""
-        context, concepts = state
-        self._init(self, context, concepts, unpickle=True)
+        """Unpickle lattice from ``(context, lattice)`` tuple with index-based concept list."""
+        context, lattice = state
+        self._fromlist(context, lattice, False, inst=self)
 
     def _tolist(self):
         return [(tuple(c._extent.iter_set()),
